@@ -70,7 +70,8 @@ def co_coarsen(case, ctx):
         if cols != ["count"] or agg:
             for c, f in zip(cols, case["aggs"]):
                 # dtype and aggregate in one field specifier, in either order
-                spec = {0: f"{c}:agg={f}", 1: f"{c}:dtype=int64,agg={f}", 2: f"{c}:agg={f},dtype=int64",
+                dt = "int64" if scale == 1 else "float64"          # the type asked for holds the values of the case
+                spec = {0: f"{c}:agg={f}", 1: f"{c}:dtype={dt},agg={f}", 2: f"{c}:agg={f},dtype={dt}",
                         3: c if f == "sum" else f"{c}:agg={f}"}[case.get("fieldstyle", 0)]       # 3: bare name where the default applies
                 args += ["--field", spec]
         res = CliRunner().invoke(cli, args)
